@@ -165,6 +165,19 @@ def run(prog: Program, ctx: Ctx) -> None:  # noqa: PLR0912,PLR0915
         "stub-only sub-package": ({"/s/pkg/__init__.py": "", "/s/pkg/sub/__init__.pyi": "", "/s/pkg/sub/m.pyi": ""}, PP("/s/pkg/__init__.py"),
                                   {("sub",): "/s/pkg/sub/__init__.pyi", ("sub", "m"): "/s/pkg/sub/m.pyi"}),
     }
+    # portions of a native namespace package: the import system walks ns.__path__ in order - the first portion providing a name wins, a regular
+    # sub-package hides everything later portions have under that name, and a regular sub-package of a later portion wins over a bare directory of
+    # an earlier one
+    layouts["namespace|the same module in both portions"] = (
+        {"/p1/ns/mod.py": "", "/p2/ns/mod.py": ""}, [PP("/p1/ns"), PP("/p2/ns")], {("mod",): "/p1/ns/mod.py"})
+    layouts["namespace|the same module in both portions, greater directory first"] = (
+        {"/p2/ns/mod.py": "", "/p1/ns/mod.py": ""}, [PP("/p2/ns"), PP("/p1/ns")], {("mod",): "/p2/ns/mod.py"})
+    layouts["namespace|regular sub-package in the first portion, deeper content under that name in the second"] = (
+        {"/p1/ns/sub/__init__.py": "", "/p1/ns/sub/m.py": "", "/p2/ns/sub/other/__init__.py": "", "/p2/ns/sub/other/y.py": "", "/p2/ns/sub/z.py": ""},
+        [PP("/p1/ns"), PP("/p2/ns")], {("sub",): "/p1/ns/sub/__init__.py", ("sub", "m"): "/p1/ns/sub/m.py"})
+    layouts["namespace|bare directory in the first portion, regular sub-package of that name in the second"] = (
+        {"/p1/ns/sub/m.py": "", "/p2/ns/sub/__init__.py": "", "/p2/ns/sub/n.py": ""},
+        [PP("/p1/ns"), PP("/p2/ns")], {("sub",): "/p2/ns/sub/__init__.py", ("sub", "n"): "/p2/ns/sub/n.py"})
     # one real directory reachable under two names through directory symlinks: CPython imports the modules under both names
     layouts["sub-package symlinked next to itself"] = (
         ({"/s/pkg/__init__.py": "", "/s/pkg/_impl/__init__.py": "", "/s/pkg/_impl/mod.py": ""}, {"/s/pkg/compat": "/s/pkg/_impl"}), PP("/s/pkg/__init__.py"),
@@ -197,7 +210,7 @@ def run(prog: Program, ctx: Ctx) -> None:  # noqa: PLR0912,PLR0915
                 if parts in got_map:
                     dup = True
                 got_map[parts] = path
-            ok = got_map == {k: v for k, v in want.items()} and not dup
+            ok = got_map == {k: v for k, v in want.items()} and (not dup or label.startswith("namespace|"))  # (the loader keeps the last file listed for a name)
             ctx.ob("R3", f"submodules|{label}", ok, f"layout `{label}`: {got_map}" + ("" if ok else f"; expected {want}"), where(sm))
         elif want is None and isinstance(results["sorted"], list):
             # files of the same module are ordered so that the last one (the winner) follows the import system's preference
